@@ -35,12 +35,10 @@ def clientRange (tags : List (Int × Int)) : Int × Int :=
     (if acc.1 < 0 || t.1 < acc.1 then t.1 else acc.1,
      if acc.2 < 0 || t.2 > acc.2 then t.2 else acc.2)) (-1, -1)
 
-/-- ApiKey.SelectVersion(minVersion, maxVersion) with the client's range `[cmin, cmax]`.
-The broker's `bmin` is not consulted by the code. -/
-def selectVersion (cmin cmax _bmin bmax : Int) : Int :=
-  if cmin > bmax then cmin
-  else if cmax < bmax then cmax
-  else bmax
+/-- ApiKey.SelectVersion(minVersion, maxVersion) with the client's range `[cmin, cmax]`: the body is regenerated
+from protocol/protocol.go on every run (`Gen.Routing.selectVersionSrc`, a statement-by-statement translation).
+Today: `if cmin > bmax then cmin else if cmax < bmax then cmax else bmax` — the broker's `bmin` is not consulted. -/
+def selectVersion (cmin cmax bmin bmax : Int) : Int := KV.Gen.Routing.selectVersionSrc cmin cmax bmin bmax
 
 /-- association-list insert with Go map semantics (assignment replaces) -/
 def ainsert {κ ν : Type} [BEq κ] (m : List (κ × ν)) (k : κ) (v : ν) : List (κ × ν) :=
